@@ -43,8 +43,16 @@ PROPS = {
     'C20': dict(vamh=dict(profiles=['teardown', 'pools', 'basic', 'defrag'])),
 }
 
+TIMEOUTS = []   # commands that did not finish (reported by the verdict: possible non-termination)
+
 def sh(cmd, timeout=3600, cwd=V, env=None):
-    p = subprocess.run(cmd, shell=isinstance(cmd, str), cwd=cwd, capture_output=True, text=True, timeout=timeout, env=env)
+    try:
+        p = subprocess.run(cmd, shell=isinstance(cmd, str), cwd=cwd, capture_output=True, text=True, timeout=timeout, env=env)
+    except subprocess.TimeoutExpired as e:
+        def txt(x):
+            return x.decode('utf-8', 'replace') if isinstance(x, bytes) else (x or '')
+        TIMEOUTS.append(cmd if isinstance(cmd, str) else ' '.join(str(c) for c in cmd))
+        return 124, txt(e.stdout), txt(e.stderr) + '\n[timeout after %ds]' % timeout
     return p.returncode, p.stdout, p.stderr
 
 def goenv():
@@ -301,11 +309,12 @@ class Check:
     def shrink(self, head, ops, pred):
         n = 2
         cnt = 0
-        while len(ops) >= 2 and cnt < 400:
+        t_end = time.time() + 150     # shrinking is a convenience: never let it dominate a check
+        while len(ops) >= 2 and cnt < 400 and time.time() < t_end:
             chunk = max(1, len(ops) // n)
             reduced = False
             i = 0
-            while i < len(ops) and cnt < 400:
+            while i < len(ops) and cnt < 400 and time.time() < t_end:
                 cand = ops[:i] + ops[i + chunk:]
                 cnt += 1
                 if cand and pred(head, cand):
@@ -333,7 +342,7 @@ class Check:
     def handle_history(self, h, mismatch, source):
         """examine one history of the implementation trace: oracle failures of this property and
         correspondence mismatch"""
-        mine = [l for l in h['fails'] if ('property=%s ' % self.pid) in l]
+        mine = [l for l in h['fails'] if ('property=%s ' % self.pid) in l or 'property=HANG ' in l]
         self.cov['oracle_failures'] += len(mine)
         new = []
         for l in mine:
@@ -397,7 +406,7 @@ class Check:
         mm = {i: (i, a, b) for i, a, b in mism}
         budget = 3   # examine at most 3 failing histories per component (each is shrunk)
         for i, h in enumerate(hi):
-            bad = any(('property=%s ' % self.pid) in l for l in h['fails'])
+            bad = any(('property=%s ' % self.pid) in l or 'property=HANG ' in l for l in h['fails'])
             if (bad or i in mm) and budget > 0:
                 before = len(self.violations) + len(self.known_hits)
                 self.handle_history(h, mm.get(i), source)
@@ -733,6 +742,10 @@ class Check:
                             self.handle_history(h, None, 'generated (model build broken)')
                             break
         self.cov['distinct_nontrivial'] = len(self.nontrivial) + self.vamh_nontrivial
+        harness_timeouts = [c for c in TIMEOUTS if '/build/' in c and 'coqc' not in c]
+        if harness_timeouts and not [v for v in self.violations if v[2]]:
+            self.violations.append((self.write_note('timeout', 'commands that did not finish (the code under test may not terminate on a generated input):\n' + '\n'.join(harness_timeouts)),
+                                    'harness command did not finish: %s' % harness_timeouts[0][:200], False))
         if self.engine_missing:
             self.violations.append((self.write_note('engine-missing', 'engines that did not build: %s' % self.engine_missing), 'engine missing: %s' % self.engine_missing, False))
         rcode = 0
